@@ -79,11 +79,13 @@ func drawStream(t *rapid.T, o streamOpts) *incrStream {
 		buf.Write(bytes.Repeat([]byte("\n"), pre))
 		// command names arrive in any letter case
 		name := string(argv[0])
-		switch rapid.IntRange(0, 3).Draw(t, "case") {
+		switch rapid.IntRange(0, 4).Draw(t, "case") {
 		case 0:
 			name = strings.ToUpper(name)
 		case 1:
 			name = strings.ToUpper(name[:1]) + name[1:]
+		case 2:
+			name = name[:1] + strings.ToUpper(name[1:])
 		}
 		argv = append([][]byte{[]byte(name)}, argv[1:]...)
 		encodeCmd(&buf, argv)
